@@ -1,0 +1,210 @@
+//go:build verif
+
+// Contracts for package cff (EmitterStack fan-out, scheduler adapter), checked
+// by /verif/engine (cffvc). Comments only.
+
+package cff
+
+// Fan-out methods: every emitter of the stack receives exactly one call of the
+// same method with the caller's arguments, in one pass over the stack, and
+// nothing else is emitted.
+
+//@ func (taskEmitterStack).TaskSuccess
+//@   ghost ncall int = 0
+//@   ghost nother int = 0
+//@   loop 1 invariant [C18] one-call-per-emitter-so-far: ncall == idx1 && 0 <= idx1 && idx1 <= len(ts)
+//@   at call TaskSuccess 1 pre assert [C18] forwards-to-this-emitter-with-callers-arguments: arg0 == ts[idx1] && arg1 == ctx
+//@   at call TaskSuccess 1 ghost ncall = ncall + 1
+//@   ensures [C18] every-emitter-called-exactly-once: ncall == len(ts)
+
+//@ func (taskEmitterStack).TaskError
+//@   ghost ncall int = 0
+//@   ghost nother int = 0
+//@   loop 1 invariant [C18] one-call-per-emitter-so-far: ncall == idx1 && 0 <= idx1 && idx1 <= len(ts)
+//@   at call TaskError 1 pre assert [C18] forwards-to-this-emitter-with-callers-arguments: arg0 == ts[idx1] && arg1 == ctx && arg2 == err
+//@   at call TaskError 1 ghost ncall = ncall + 1
+//@   ensures [C18] every-emitter-called-exactly-once: ncall == len(ts)
+
+//@ func (taskEmitterStack).TaskErrorRecovered
+//@   ghost ncall int = 0
+//@   ghost nother int = 0
+//@   loop 1 invariant [C18] one-call-per-emitter-so-far: ncall == idx1 && 0 <= idx1 && idx1 <= len(ts)
+//@   at call TaskErrorRecovered 1 pre assert [C18] forwards-to-this-emitter-with-callers-arguments: arg0 == ts[idx1] && arg1 == ctx && arg2 == err
+//@   at call TaskErrorRecovered 1 ghost ncall = ncall + 1
+//@   ensures [C18] every-emitter-called-exactly-once: ncall == len(ts)
+
+//@ func (taskEmitterStack).TaskSkipped
+//@   ghost ncall int = 0
+//@   ghost nother int = 0
+//@   loop 1 invariant [C18] one-call-per-emitter-so-far: ncall == idx1 && 0 <= idx1 && idx1 <= len(ts)
+//@   at call TaskSkipped 1 pre assert [C18] forwards-to-this-emitter-with-callers-arguments: arg0 == ts[idx1] && arg1 == ctx && arg2 == err
+//@   at call TaskSkipped 1 ghost ncall = ncall + 1
+//@   ensures [C18] every-emitter-called-exactly-once: ncall == len(ts)
+
+//@ func (taskEmitterStack).TaskPanic
+//@   ghost ncall int = 0
+//@   ghost nother int = 0
+//@   loop 1 invariant [C18] one-call-per-emitter-so-far: ncall == idx1 && 0 <= idx1 && idx1 <= len(ts)
+//@   at call TaskPanic 1 pre assert [C18] forwards-to-this-emitter-with-callers-arguments: arg0 == ts[idx1] && arg1 == ctx && arg2 == pv
+//@   at call TaskPanic 1 ghost ncall = ncall + 1
+//@   ensures [C18] every-emitter-called-exactly-once: ncall == len(ts)
+
+//@ func (taskEmitterStack).TaskPanicRecovered
+//@   ghost ncall int = 0
+//@   ghost nother int = 0
+//@   loop 1 invariant [C18] one-call-per-emitter-so-far: ncall == idx1 && 0 <= idx1 && idx1 <= len(ts)
+//@   at call TaskPanicRecovered 1 pre assert [C18] forwards-to-this-emitter-with-callers-arguments: arg0 == ts[idx1] && arg1 == ctx && arg2 == pv
+//@   at call TaskPanicRecovered 1 ghost ncall = ncall + 1
+//@   ensures [C18] every-emitter-called-exactly-once: ncall == len(ts)
+
+//@ func (taskEmitterStack).TaskDone
+//@   ghost ncall int = 0
+//@   ghost nother int = 0
+//@   loop 1 invariant [C18] one-call-per-emitter-so-far: ncall == idx1 && 0 <= idx1 && idx1 <= len(ts)
+//@   at call TaskDone 1 pre assert [C18] forwards-to-this-emitter-with-callers-arguments: arg0 == ts[idx1] && arg1 == ctx && arg2 == d
+//@   at call TaskDone 1 ghost ncall = ncall + 1
+//@   ensures [C18] every-emitter-called-exactly-once: ncall == len(ts)
+
+//@ func (flowEmitterStack).FlowSuccess
+//@   ghost ncall int = 0
+//@   ghost nother int = 0
+//@   loop 1 invariant [C18] one-call-per-emitter-so-far: ncall == idx1 && 0 <= idx1 && idx1 <= len(fs)
+//@   at call FlowSuccess 1 pre assert [C18] forwards-to-this-emitter-with-callers-arguments: arg0 == fs[idx1] && arg1 == ctx
+//@   at call FlowSuccess 1 ghost ncall = ncall + 1
+//@   ensures [C18] every-emitter-called-exactly-once: ncall == len(fs)
+
+//@ func (flowEmitterStack).FlowError
+//@   ghost ncall int = 0
+//@   ghost nother int = 0
+//@   loop 1 invariant [C18] one-call-per-emitter-so-far: ncall == idx1 && 0 <= idx1 && idx1 <= len(fs)
+//@   at call FlowError 1 pre assert [C18] forwards-to-this-emitter-with-callers-arguments: arg0 == fs[idx1] && arg1 == ctx && arg2 == err
+//@   at call FlowError 1 ghost ncall = ncall + 1
+//@   ensures [C18] every-emitter-called-exactly-once: ncall == len(fs)
+
+//@ func (flowEmitterStack).FlowDone
+//@   ghost ncall int = 0
+//@   ghost nother int = 0
+//@   loop 1 invariant [C18] one-call-per-emitter-so-far: ncall == idx1 && 0 <= idx1 && idx1 <= len(fs)
+//@   at call FlowDone 1 pre assert [C18] forwards-to-this-emitter-with-callers-arguments: arg0 == fs[idx1] && arg1 == ctx && arg2 == d
+//@   at call FlowDone 1 ghost ncall = ncall + 1
+//@   ensures [C18] every-emitter-called-exactly-once: ncall == len(fs)
+
+//@ func (parallelEmitterStack).ParallelSuccess
+//@   ghost ncall int = 0
+//@   ghost nother int = 0
+//@   loop 1 invariant [C18] one-call-per-emitter-so-far: ncall == idx1 && 0 <= idx1 && idx1 <= len(ps)
+//@   at call ParallelSuccess 1 pre assert [C18] forwards-to-this-emitter-with-callers-arguments: arg0 == ps[idx1] && arg1 == ctx
+//@   at call ParallelSuccess 1 ghost ncall = ncall + 1
+//@   ensures [C18] every-emitter-called-exactly-once: ncall == len(ps)
+
+//@ func (parallelEmitterStack).ParallelError
+//@   ghost ncall int = 0
+//@   ghost nother int = 0
+//@   loop 1 invariant [C18] one-call-per-emitter-so-far: ncall == idx1 && 0 <= idx1 && idx1 <= len(ps)
+//@   at call ParallelError 1 pre assert [C18] forwards-to-this-emitter-with-callers-arguments: arg0 == ps[idx1] && arg1 == ctx && arg2 == err
+//@   at call ParallelError 1 ghost ncall = ncall + 1
+//@   ensures [C18] every-emitter-called-exactly-once: ncall == len(ps)
+
+//@ func (parallelEmitterStack).ParallelDone
+//@   ghost ncall int = 0
+//@   ghost nother int = 0
+//@   loop 1 invariant [C18] one-call-per-emitter-so-far: ncall == idx1 && 0 <= idx1 && idx1 <= len(ps)
+//@   at call ParallelDone 1 pre assert [C18] forwards-to-this-emitter-with-callers-arguments: arg0 == ps[idx1] && arg1 == ctx && arg2 == d
+//@   at call ParallelDone 1 ghost ncall = ncall + 1
+//@   ensures [C18] every-emitter-called-exactly-once: ncall == len(ps)
+
+//@ func (schedulerEmitterStack).EmitScheduler
+//@   ghost ncall int = 0
+//@   ghost nother int = 0
+//@   loop 1 invariant [C18] one-call-per-emitter-so-far: ncall == idx1 && 0 <= idx1 && idx1 <= len(ses)
+//@   at call EmitScheduler 1 pre assert [C18] forwards-to-this-emitter-with-callers-arguments: arg0 == ses[idx1] && arg1 == s
+//@   at call EmitScheduler 1 ghost ncall = ncall + 1
+//@   ensures [C18] every-emitter-called-exactly-once: ncall == len(ses)
+
+// Init methods: the result is a stack of the same length whose i-th element is
+// what the i-th emitter's Init returned for the caller's arguments.
+
+//@ func (emitterStack).TaskInit
+//@   option fresh-result-slice=[C18]
+//@   ghost ncall int = 0
+//@   ghost rets map[int]int
+//@   loop 1 invariant [C18] prefix-initialised: ncall == idx1 && 0 <= idx1 && idx1 <= len(es) && len(emitters) == idx1 && forall(i, int, implies(0 <= i && i < idx1, emitters[i] == rets[i]))
+//@   at call TaskInit 1 pre assert [C18] init-forwarded-to-this-emitter-with-callers-arguments: arg0 == es[idx1] && arg1 == taskInfo && arg2 == dInfo
+//@   at call TaskInit 1 ghost rets[idx1] = ret
+//@   at call TaskInit 1 ghost ncall = ncall + 1
+//@   ensures [C18] result-is-stack-of-inits: ncall == len(es) && len(sliceof(result)) == len(es) && forall(i, int, implies(0 <= i && i < len(es), sliceof(result)[i] == rets[i]))
+
+//@ func (emitterStack).FlowInit
+//@   option fresh-result-slice=[C18]
+//@   ghost ncall int = 0
+//@   ghost rets map[int]int
+//@   loop 1 invariant [C18] prefix-initialised: ncall == idx1 && 0 <= idx1 && idx1 <= len(es) && len(emitters) == idx1 && forall(i, int, implies(0 <= i && i < idx1, emitters[i] == rets[i]))
+//@   at call FlowInit 1 pre assert [C18] init-forwarded-to-this-emitter-with-callers-arguments: arg0 == es[idx1] && arg1 == info
+//@   at call FlowInit 1 ghost rets[idx1] = ret
+//@   at call FlowInit 1 ghost ncall = ncall + 1
+//@   ensures [C18] result-is-stack-of-inits: ncall == len(es) && len(sliceof(result)) == len(es) && forall(i, int, implies(0 <= i && i < len(es), sliceof(result)[i] == rets[i]))
+
+//@ func (emitterStack).ParallelInit
+//@   option fresh-result-slice=[C18]
+//@   ghost ncall int = 0
+//@   ghost rets map[int]int
+//@   loop 1 invariant [C18] prefix-initialised: ncall == idx1 && 0 <= idx1 && idx1 <= len(es) && len(emitters) == idx1 && forall(i, int, implies(0 <= i && i < idx1, emitters[i] == rets[i]))
+//@   at call ParallelInit 1 pre assert [C18] init-forwarded-to-this-emitter-with-callers-arguments: arg0 == es[idx1] && arg1 == info
+//@   at call ParallelInit 1 ghost rets[idx1] = ret
+//@   at call ParallelInit 1 ghost ncall = ncall + 1
+//@   ensures [C18] result-is-stack-of-inits: ncall == len(es) && len(sliceof(result)) == len(es) && forall(i, int, implies(0 <= i && i < len(es), sliceof(result)[i] == rets[i]))
+
+//@ func (emitterStack).SchedulerInit
+//@   option fresh-result-slice=[C18]
+//@   ghost ncall int = 0
+//@   ghost rets map[int]int
+//@   loop 1 invariant [C18] prefix-initialised: ncall == idx1 && 0 <= idx1 && idx1 <= len(es) && len(emitters) == len(es) && forall(i, int, implies(0 <= i && i < idx1, emitters[i] == rets[i]))
+//@   at call SchedulerInit 1 pre assert [C18] init-forwarded-to-this-emitter-with-callers-arguments: arg0 == es[idx1] && arg1 == info
+//@   at call SchedulerInit 1 ghost rets[idx1] = ret
+//@   at call SchedulerInit 1 ghost ncall = ncall + 1
+//@   ensures [C18] result-is-stack-of-inits: ncall == len(es) && len(sliceof(result)) == len(es) && forall(i, int, implies(0 <= i && i < len(es), sliceof(result)[i] == rets[i]))
+
+// EmitterStack: no emitters -> the no-op emitter; one -> that emitter itself;
+// otherwise a stack that is the concatenation, in order, of every argument
+// with nested stacks flattened one level (stacks are built only by this
+// function, so one level is all levels).
+// Ghost pos[i] is the offset in the result of the i-th argument's contribution.
+
+//@ macro ES = "go.uber.org/cff.emitterStack"
+//@ macro CONTRIB = forall(i, int, implies(0 <= i && i < idx1, \
+//@     implies(typeof(emitters[i]) == typeid($ES), pos[i+1] == pos[i] + len(sliceof(emitters[i])) && \
+//@         forall(j, int, implies(0 <= j && j < len(sliceof(emitters[i])), stack[pos[i]+j] == sliceof(emitters[i])[j]))) && \
+//@     implies(typeof(emitters[i]) != typeid($ES), pos[i+1] == pos[i] + 1 && stack[pos[i]] == emitters[i])))
+
+//@ func EmitterStack
+//@   option fresh-result-slice=[C18]
+//@   ghost pos map[int]int
+//@   ghost nop ref = 0
+//@   at call NopEmitter 1 ghost nop = ret
+//@   loop 1 invariant [C18] offsets: 0 <= idx1 && idx1 <= len(emitters) && pos[0] == 0 && pos[idx1] == len(stack) && forall(i, int, implies(0 <= i && i <= idx1, 0 <= pos[i] && pos[i] <= len(stack)))
+//@   loop 1 invariant [C18] flattened-prefix: $CONTRIB
+//@   at call append 1 ghost pos[idx1+1] = pos[idx1] + len(arg1)
+//@   at call append 2 ghost pos[idx1+1] = pos[idx1] + 1
+//@   ensures [C18] no-emitters-is-nop: implies(len(emitters) == 0, result == nop && nop != 0)
+//@   ensures [C18] one-emitter-is-itself: implies(len(emitters) == 1, result == emitters[0])
+//@   ensures [C18] many-is-a-stack: implies(len(emitters) > 1, typeof(result) == typeid($ES) && len(sliceof(result)) == pos[len(emitters)])
+//@   ensures [C18] stack-is-flattened-concatenation: implies(len(emitters) > 1, forall(i, int, implies(0 <= i && i < len(emitters), \
+//@     implies(typeof(emitters[i]) == typeid($ES), pos[i+1] == pos[i] + len(sliceof(emitters[i])) && \
+//@         forall(j, int, implies(0 <= j && j < len(sliceof(emitters[i])), sliceof(result)[pos[i]+j] == sliceof(emitters[i])[j]))) && \
+//@     implies(typeof(emitters[i]) != typeid($ES), pos[i+1] == pos[i] + 1 && sliceof(result)[pos[i]] == emitters[i]))))
+
+// Scheduler adapter.
+
+//@ func (schedulerAdapter).Emit
+//@   ghost n int = 0
+//@   at call EmitScheduler 1 pre assert [C19] state-forwarded-unchanged: arg1 == state && arg0 == s.emitter
+//@   at call EmitScheduler 1 ghost n = n + 1
+//@   ensures [C19] emitted-once: n == 1
+
+//@ func adaptSchedulerEmitter
+//@   ensures [C19] no-emitter-or-nop-means-no-ticker: implies(e == nil || typeof(e) == typeid("*go.uber.org/cff.nopEmitter"), result == nil)
+//@   ensures [C19] live-emitter-is-adapted: implies(e != nil && typeof(e) != typeid("*go.uber.org/cff.nopEmitter"), result != nil)
+
+//@ func NewScheduler
+//@   requires p.Concurrency >= 0
+//@   at call New 1 pre assert [C03,C19,C08] params-forwarded-to-config: arg0.Concurrency == p.Concurrency && arg0.ContinueOnError == p.ContinueOnError
